@@ -8,6 +8,7 @@ property on the implementation alone.
 """
 from __future__ import annotations
 
+import contextlib
 import copy
 import math
 
@@ -213,6 +214,42 @@ def np_clipped_sum(grads, clipping, C):
     return acc
 
 
+# --------------------------------------------------------------------------- observation of the ghost path
+@contextlib.contextmanager
+def capture_norm_samplers():
+    """Record what the real ghost path feeds its norm samplers (layer, activations, backprops after
+    `rearrange_grad_samples`) and what `create_norm_sample` receives for layers without one.
+    Pure observation from the harness's own process: the wrapped functions are called unchanged."""
+    from opacus.grad_sample import grad_sample_module_fast_gradient_clipping as M
+
+    cls = M.GradSampleModuleFastGradientClipping
+    rec = []
+    old = dict(cls.NORM_SAMPLERS)
+
+    def wrap(fn):
+        def w(layer, activations, backprops):
+            rec.append(("ns", layer, [a.detach().clone() for a in activations], backprops.detach().clone()))
+            return fn(layer, activations, backprops)
+
+        return w
+
+    for k, fn in old.items():
+        cls.NORM_SAMPLERS[k] = wrap(fn)
+    old_c = M.create_norm_sample
+
+    def cns(*, param, grad_sample, max_batch_len):
+        rec.append(("gs", param, grad_sample.detach().clone()))
+        return old_c(param=param, grad_sample=grad_sample, max_batch_len=max_batch_len)
+
+    M.create_norm_sample = cns
+    try:
+        yield rec
+    finally:
+        M.create_norm_sample = old_c
+        for k, fn in old.items():
+            cls.NORM_SAMPLERS[k] = fn
+
+
 # --------------------------------------------------------------------------- the real engine
 class EngineRun:
     """One logical step of the real machinery on the logical batch (x, y).
@@ -227,7 +264,7 @@ class EngineRun:
     """
 
     def __init__(self, spec, x, y, *, gsm_mode="hooks", clipping="flat", C=1.0, reduction="mean",
-                 max_phys=None, sigma=1.0, noise="zero", ebs=None, accum=1, col=False, inner="sgd", lr=0.0):
+                 max_phys=None, sigma=1.0, noise="zero", ebs=None, accum=1, col=False, inner="sgd", lr=0.0, capture=False):
         from opacus.grad_sample.utils import get_gsm_class
         from opacus.optimizers import get_optimizer_class
 
@@ -262,7 +299,10 @@ class EngineRun:
             crit = DPLossFastGradientClipping(self.gsm, self.opt, crit, reduction)
         self.crit = crit
         self.norms = []
-        with rig.patched_normal(noise) as log:
+        self.records = []          # per physical batch: captured norm-sampler inputs (ghost + capture)
+        self._rec = None
+        with (capture_norm_samplers() if capture else contextlib.nullcontext()) as rec, rig.patched_normal(noise) as log:
+            self._rec = rec
             self.opt.zero_grad()
             if max_phys is None:
                 # `accum` backward passes over consecutive slices, then one step
@@ -287,11 +327,16 @@ class EngineRun:
         self.summed = [None if p.summed_grad is None else p.summed_grad.detach().numpy().copy().reshape(tuple(p.shape)) for p in ps]
         self.grad = [None if p.grad is None else p.grad.detach().numpy().copy() for p in ps]
         self.C_after = float(self.opt.max_grad_norm)
+        self.param_norm_samples = [getattr(p, "_norm_sample", None) for p in ps]
+        self.param_names = [n for n, _ in self.plain.named_parameters()]
 
     def _fb(self, xb, yb):
+        n0 = len(self._rec) if self._rec is not None else 0
         out = self.gsm(xb)
         loss = self.crit(out, yb)
         loss.backward()
+        if self._rec is not None:
+            self.records.append((len(xb), self._rec[n0:]))
         if hasattr(self.gsm, "_per_sample_gradient_norms") and self.gsm._per_sample_gradient_norms is not None:
             self.norms.append(self.gsm._per_sample_gradient_norms.detach().numpy().copy())
 
